@@ -506,6 +506,7 @@ def _group_members(st, ph, b):
             if val is not None:
                 pcs += [SP()] + val
             out.append((Block("def:" + did, "define", [Line(pcs, "define")]), adv()))
+        out += [(blk, adv()) for blk in _cond_blocks(0, "_B" if top.gcount else "")]
     elif ph == PH_GLOB:
         for gid, (typ, stars, name, arr, init) in GLOBALS.items():
             if top.gcount and gid == "sint":
@@ -537,6 +538,21 @@ def _group_members(st, ph, b):
                 pcs.append(P("semi", ";"))
                 out.append((Block(f"proto:{pid}" + ("+" if ci else ""), "proto", [Line(pcs, "proto")]), adv(col)))
     return out
+
+
+def _cond_blocks(level, sfx):
+    """Conditional-compilation blocks (directives inside #if/#ifdef/#ifndef are indented by one blank per level)."""
+    def d(lvl, name, rest=(), kind="cond"):
+        pcs = [P("hash", "#")] + ([P("pind", " " * lvl)] if lvl else []) + [P("dir", name)]
+        for r in rest:
+            pcs += [SP()] + r
+        return Line(pcs, kind)
+    m = [ID("macro", "CHUNK_SIZE" + sfx)]
+    b1 = [d(level, "ifndef", [m]), d(level + 1, "define", [m, C("64")], "define"), d(level, "endif")]
+    dbg = [ID("macro", "FT_VERBOSE" + sfx)]
+    b2 = [d(level, "ifdef", [dbg]), d(level + 1, "define", [[ID("macro", "LOG_LEVEL" + sfx)], C("2")], "define"), d(level, "else"),
+          d(level + 1, "define", [[ID("macro", "LOG_LEVEL" + sfx)], C("0")], "define"), d(level, "endif")]
+    return [Block("def:ifndef-block", "define", b1), Block("def:ifdef-else-block", "define", b2)]
 
 
 # ------------------------------------------------------------------ the .h model
@@ -589,6 +605,7 @@ def _h_members(st, ph, b):
             pcs = [P("hash", "#"), P("pind", " "), P("dir", "define"), SP(),
                    ID("macro", name + ("_B" if top.gcount else "")), SP()] + val
             out.append((Block("def:" + did, "define", [Line(pcs, "define")]), adv()))
+        out += [(blk, adv()) for blk in _cond_blocks(1, "_B" if top.gcount else "")]
     elif ph == 2:
         n = top.nfuncs
         cols = [hcol] if hcol else [9, 13][:2 if b.wide else 1]
